@@ -30,6 +30,8 @@ struct Config {
   int sticky_num = 3;          // S_STICKY: keep running the current thread with probability sticky_num/4
   int sig_linux_bias = 0;      // 1: a SIGCHLD goes to the forking thread whenever it is eligible
   int pid_recycle = 0;         // 1: simulated pids come from a small space and are re-used as soon as the child has been reaped
+  int alloc_rate = 0;          // > 0: one operator new/delete in alloc_rate made by the code under test is a scheduling point "inside the allocator"
+  int alloc_phase = 0;
   long max_steps = 200000;     // step cap (bounded liveness)
   std::vector<Fault> faults;
   bool replay = false;         // decisions come from 'decisions' (modulo the enabled set; exhausted -> 0)
@@ -74,7 +76,9 @@ void state_counts(int out[8]);           // number of simulated threads per stat
 // the harness installs a callback; it must not return (print the result line and _exit).
 typedef void (*fatal_cb)(const char* cls, const char* detail);
 void set_fatal_callback(fatal_cb);
-std::string describe_threads();       // state of every simulated thread (for reports)
+std::string describe_threads();
+std::string stack_summary(int max_frames);   // innermost frames of the code under test on the calling thread (fatal paths only)
+std::string where(const void* pc);    // source position(s) of a code address (runs addr2line: fatal paths only)       // state of every simulated thread (for reports)
 const char* mutex_name(const void* m);  // symbol name of a mutex when it is a global with a dynamic symbol
 
 #ifdef VSIM_PROC
